@@ -499,9 +499,14 @@ pub fn g_smhd(v: &mut V) -> (SmhdBox, Node) {
 }
 
 pub fn g_url(with_location: bool, v: &mut V) -> (UrlBox, Node) {
+    g_url_flag(with_location, !with_location, v)
+}
+
+/// `self_contained`: flag bit 0.  The usual coupling is "bit 0 set <=> no location string", but the two are separate
+/// fields on the wire and every combination is a representable value.
+pub fn g_url_flag(with_location: bool, self_contained: bool, v: &mut V) -> (UrlBox, Node) {
     let ver = v.u8();
-    // flag bit 0: media is in the same file <=> no location string
-    let flags = (v.u24() & !1) | if with_location { 0 } else { 1 };
+    let flags = (v.u24() & !1) | if self_contained { 1 } else { 0 };
     let loc = if with_location {
         let s = v.string();
         if s.is_empty() {
@@ -1319,7 +1324,9 @@ pub fn all_cases(tier: Tier) -> Vec<Box<dyn BoxCase>> {
     add!("vpcC", "".into(), |v: &mut V| g_vpcc(v));
     add!("vp09", "".into(), |v: &mut V| g_vp09(v));
     for w in [false, true] {
-        add!("url ", format!("location={}", w), |v: &mut V| g_url(w, v));
+        for sc in [false, true] {
+            add!("url ", format!("location={} self_contained_flag={}", w, sc), |v: &mut V| g_url_flag(w, sc, v));
+        }
     }
     for u in [None, Some(false), Some(true)] {
         add!("dref", format!("url={:?}", u), |v: &mut V| g_dref(u, v));
